@@ -22,6 +22,8 @@ RULE = (
     "exec_inprogress / exec_total per layer, retry_queue (= futures of that retry layer not yet done), throttle_queue (= accepted, "
     "not handed over, not cancelled), retry_total (= delegate submissions beyond the first per future), poll_total / poll_error (= poll "
     "calls / raising poll calls), timeout and shutdown_cancel (= successful cancels only); no gauge child below 0 at any time. "
+    "Plus a Hypothesis RuleBasedStateMachine (step-wise engine) over one named retry or throttle layer: rules submit / run / cancel / "
+    "cancel behind the back / advance / shutdown, every gauge and counter compared with reality after EVERY rule. "
     "Non-trivial = the history contains a cancel, a timeout or a retry. Distinct = digest of the case."
 )
 ASSUMPTIONS = [
@@ -302,6 +304,7 @@ def catalog():
 def shards(tier, seed):
     n = 250 if tier == "quick" else 4000
     specs = [{"mode": "sweep", "entries": [name], "double": tier == "thorough"} for name in sorted(catalog())]
+    specs += [{"mode": "machine", "seed": seed * 1000 + 500 + i, "n": 60 if tier == "quick" else 1500, "steps": 30 if tier == "quick" else 60} for i in range(4)]
     return specs + [{"mode": "random", "seed": seed * 1000 + i, "n": n} for i in range(13)]
 
 
@@ -310,10 +313,16 @@ def run_shard(spec, ctx):
         cat = catalog()
         for name in spec["entries"]:
             progs.sweep(ctx, cat[name], name, evaluate, account, double=spec.get("double"), extra={"entry": name, "max_vtime": 300})
+    elif spec["mode"] == "machine":
+        import machines
+        machines.run_machine(machines.make_metrics_machine, ctx, spec["seed"], spec["n"], spec["steps"])
     else:
         progs.random_search(ctx, spec, case_strategy(), evaluate, account, max_rounds=8)
 
 
 def replay(case):
+    if case.get("machine") == "metrics":
+        import machines
+        return machines.replay_metrics(case)
     viols, info = evaluate(case)
     return viols
